@@ -275,6 +275,27 @@ def build(app):
         # same URL for every request of this kind; what differs is a request header only
         raise ValueError('boom-' + (app.request.headers.get('X-M') or '?'))
 
+    @app.route('/dated/<m>')
+    def dated(m):
+        # cookies with request-specific expiry dates (formatted by the framework), one deleted cookie
+        note('arg', m)
+        stamp = 1000000000 + int(m[1:-1]) * 86400 + len(m)
+        rs = app.response
+        rs.set_cookie('lease', 'l' + m, expires=stamp)
+        rs.set_cookie('short', 's' + m, max_age=60 + int(m[1:-1]))
+        rs.delete_cookie('old' + m)
+        rs.set_cookie('lease2', 'l2' + m, expires=stamp + 3600)
+        return 'dated-' + m
+
+    @app.route('/reqerr/<m>')
+    def reqerr(m):
+        # the handler itself raises one of the framework's request errors (as a body helper called directly would)
+        from ombott.request_pkg import errors as rq_errors
+        note('arg', m)
+        read_all(app, 'r1')
+        cls = rq_errors.BodyParsingError if len(m) % 2 else rq_errors.RequestError
+        raise cls('own-' + m)
+
     @app.route('/json/<m>', method='POST')
     def json_in(m):
         note('arg', m)
